@@ -18,11 +18,11 @@ MODELLED = ["plain", "nullproto", "arrow", "bound", "class", "strobj", "sargs", 
 ARRAYS = ["arr", "sparr"]                       # dense [101,102,103] / sparse (a[5000]) arrays: monitored (modelled by C07)
 TEMPLATED = ["fproto", "aproto", "sproto", "dproto", "taproto", "mapproto", "setproto", "promproto", "symproto", "regproto",
              "json", "math", "global"]           # lazily-templated built-in prototypes / namespace objects (fresh runtime per case)
-MONITORED = ARRAYS + TEMPLATED + [ "gomap", "goslice", "gostruct", "dyn", "dynarr"]
+MONITORED = ARRAYS + TEMPLATED + [ "gomap", "goslice", "goslicecap", "gostruct", "dyn", "dynarr"]
 # kinds for the key-kind metamorphic check (no model of the kind needed): every kind with hand-written Str/Idx method copies
-META_KINDS = ["goslice", "gomap", "gostruct", "dyn", "dynarr", "u8", "args", "sargs", "strobj", "arr", "sparr", "func", "plain"]
+META_KINDS = ["goslice", "goslicecap", "gomap", "gostruct", "dyn", "dynarr", "u8", "args", "sargs", "strobj", "arr", "sparr", "func", "plain"]
 GENERAL_MONITORED = [k for k in MONITORED if k not in TEMPLATED or k in ("math", "global")]
-WRAPPERS = {"gomap", "goslice", "gostruct", "dyn", "dynarr"}          # documented non-ordinary variants: key order not checked
+WRAPPERS = {"gomap", "goslice", "goslicecap", "gostruct", "dyn", "dynarr"}          # documented non-ordinary variants: key order not checked
 DEFAULT_PROTO = {"plain": "O", "nullproto": "null", "arrow": "F", "bound": "F", "class": "F", "strobj": "?", "sargs": "O", "args": "O", "u8": "?", "func": "F"}
 
 # well-known symbols are SYM[3..] of the harness prelude
@@ -651,7 +651,7 @@ def classify_monitor(case, mon, idxs, j, verdict):
         if mon[q].split()[1] == str(oid):
             prev = q
             break
-    if kind == "goslice" and verdict.strip() == "bad step" and prev is not None:
+    if kind in ("goslice", "goslicecap") and verdict.strip() == "bad step" and prev is not None:
         a, b = parse_props(mon[prev]), parse_props(ml)
         removed, added = set(a) - set(b), set(b) - set(a)
         if removed and all(k.startswith("i") for k in removed):
@@ -749,12 +749,16 @@ def main(ctx):
         "parametricity: _defineOwnProperty and the set/define paths use property values and accessor functions only through identity (SameAs / pointer equality); the exhaustive table draws them from a pool of distinct identities",
         "SameAs on property values coincides with SameValue (number/string canonical forms are C05/C06)",
         "sort.Search on a monotone predicate returns the first index where it holds (fixPropOrder's binary search is modelled as insertion before the first greater-or-equal index)",
-        "propNames with the counters lastSortedPropLen/idxPropCount is modelled as three list segments; the copy-on-write marker of prepareNamesForCopy is not modelled (for-in order is checked by the correspondence only)",
+        "propNames with the counters lastSortedPropLen/idxPropCount is modelled as three list segments; the copy-on-write marker is modelled separately (Cow.lean) with the logical content given by those segments; an iterator over an empty name list is taken to be exhausted by its first next() (no user code in between)",
+        "mapped arguments: the parameter variables are written only through the arguments object (no closure over the parameters) — the situation of every arguments object the harness creates",
+        "typed arrays: only canonical array-index keys are issued (Key.idx); other canonical numeric strings (-0, 1.5, 2^32-1 …) are not exercised",
         "descriptors are well-formed (never both accessor and data fields): toPropertyDescriptor and the Go API cannot build others",
         "getter/setter fields hold undefined or a callable object (propGetter/propSetter throw otherwise)",
     ]
     ctx.trusted_base += [
         "hook /repo/verif_hooks_c04.go (VerifC04DefineOwn builds the existing slot and calls the real _defineOwnProperty; VerifC04PropOrder reads propNames and counters)",
+        "lean/GojaModel/C07 (array abstraction and its refinement theorem history_refines) for the two theorems of PropsArray.lean",
+        "hand transcription of ECMA-262 10.4.3 (String exotic), 10.4.4 (arguments), 10.4.5 (integer-indexed), 20.2.4/10.2.5 (function prototype) next to the mechanism models",
         "hand transcription of ECMA-262 10.1.6.3 ValidateAndApplyPropertyDescriptor, 10.1.9.2 OrdinarySetWithOwnDescriptor, 10.1.11.1 OrdinaryOwnPropertyKeys, 7.3.15/16 integrity levels in Model.lean",
         "JS prelude of harness/cmd/c04 (dump/tok canonicalisation)",
     ]
@@ -767,7 +771,7 @@ def main(ctx):
     if not ok:
         # a broken theorem / tie must not take the model driver away from the search
         sh(["lake", "build", "model_c04"], cwd=LEAN, timeout=3000)
-    names = ctx.audit("GojaModel.C04.Props", expect_min=39)
+    names = ctx.audit("GojaModel.C04.Props", expect_min=40)
     ctx.audit("GojaModel.C04.PropsArray", expect_min=2)          # rests on lean/GojaModel/C07 (array abstraction)
     if have_tie and ok:
         ctx.audit("GojaModel.C04.Tie", expect_min=1)
